@@ -43,11 +43,10 @@ def battery(case):
     run("at", lambda: build(m, memo=dict(memo)).at(P()))
     run("_normalize", lambda: build(m, memo=dict(memo))._normalize())
     for v in names[:3]:
-        for rt, _e, single in DV.NUMERIC_ROUTES:
-            if single or "number" in rt:
-                continue
+        for rt in ("Partial.at/late", "Partial.at/early", "Differential.at.component/late", "Differential.at.component/early",
+                   "Differential.component_at/late", "LocatedDifferential.component"):
             run(f"{rt}[{v}]", lambda: _numeric(rt, m, memo, point, v))
-        for rt in ("Partial.as_expression/late", "Partial.as_expression/early", "Differential(early).component.as_expression"):
+        for rt in ("Partial.as_expression/late", "Differential(early).component.as_expression"):
             run(f"{rt}[{v}]", lambda: _symbolic(rt, m, memo, v))
     # the whole gradient in the order the library reports it for the names asked, and a repr of the objects
     run("repr", lambda: build(m, memo=dict(memo)))      # an Expression: formatted through its repr
